@@ -24,9 +24,9 @@ INFO = {
         'quick': {'counters': {'reconstructions': 500, 'geometries_compared': 450, 'grids_compared': 450, 'file_roundtrips': 100,
                                'two_dimensional_cases': 60},
                   'seen': {'atmosphere_type': 3, 'surface_kind': 3}, 'nontrivial': 250},
-        'thorough': {'counters': {'reconstructions': 2500, 'geometries_compared': 2300, 'grids_compared': 2300, 'file_roundtrips': 500,
-                                  'two_dimensional_cases': 200},
-                     'seen': {'atmosphere_type': 3, 'surface_kind': 3}, 'nontrivial': 1000},
+        'thorough': {'counters': {'reconstructions': 9000, 'geometries_compared': 8500, 'grids_compared': 8500, 'file_roundtrips': 1800,
+                                  'two_dimensional_cases': 700},
+                     'seen': {'atmosphere_type': 3, 'surface_kind': 3}, 'nontrivial': 3500},
     },
     'watchdog_s': {'quick': 1200, 'thorough': 5400},
     'assumptions': ['in memory: tolerance 1e-7 x extent (the reconstruction divides volumes by areas and rotates twice)',
@@ -38,7 +38,7 @@ INFO = {
 def plan(tier, seed):
     if tier == 'quick':
         return [{'n': 120} for _ in range(6)]
-    return [{'n': 200} for _ in range(16)]
+    return [{'n': 800} for _ in range(16)]
 
 
 def gen_case(rng, k):
